@@ -25,7 +25,8 @@ def pTok : P Tok := do
     | 'k' :: r => match parseHex (String.ofList r) with | some c => pure (.const c) | none => failure
     | _ => failure
 
-def pProg : P (List Tok) := pList pTok
+/-- the program, followed by the length-prefixed `meta` list (ignored: it is for the comparator) -/
+def pProg : P (List Tok) := do let pr ← pList pTok; let _ ← pList tok; pure pr
 
 def isPow2 (n : Nat) : Bool := n != 0 && (n &&& (n - 1)) == 0
 
